@@ -264,8 +264,13 @@ func c22GenFork(r *vhRng) string {
 	for i := 0; i < s.n; i++ {
 		pv[i] = s.vote("pv v%d", i)
 	}
-	for to := 0; to < s.n; to++ { // everybody receives every prevote
-		for _, id := range s.shuffle(pv) {
+	thr := 2 * s.n / 3
+	for to := 0; to < s.n; to++ {
+		ids := pv // everybody receives every prevote ...
+		if to == last && !r.Chance(1, 8) {
+			ids = pv[:thr] // ... but `last` only thr prevotes for B: with its own vote only A has a supermajority
+		}
+		for _, id := range s.shuffle(ids) {
 			if id != pv[to] {
 				s.op("d m%d v%d", id, to)
 			}
@@ -277,7 +282,6 @@ func c22GenFork(r *vhRng) string {
 	}
 	// voter 0 receives all precommits (B gets a supermajority); the others miss enough precommits for B
 	// that only A has one for them
-	thr := 2 * s.n / 3
 	for to := 0; to < s.n; to++ {
 		var ids []int
 		if to == 0 || r.Chance(1, 6) {
